@@ -541,6 +541,10 @@ class Run:
         """writeback=True: `v` is the new value of a container that was mutated in place through `target`."""
         if isinstance(target, ast.Name):
             name = target.id
+            if writeback and fr.lookup(name) is not None and name not in fr.vars and name not in fr.globals_decl:
+                # mutation through a variable of an enclosing scope
+                fr.owner(name).vars[name] = v
+                return
             if writeback and fr.lookup(name) is None and name in self.globals:
                 self.globals[name] = self.coerce(v, self.globals[name].ty)
                 return
@@ -562,6 +566,7 @@ class Run:
                 self.assign(t, i, fr)
         elif isinstance(target, ast.Attribute):
             obj = self.ev(target.value, fr)
+            self._cur_frame = fr
             self.set_attr(obj, target.attr, v, target)
         elif isinstance(target, ast.Subscript) and writeback:
             # nested write-back: d[k] was mutated in place
@@ -589,6 +594,15 @@ class Run:
             self.store_field(obj.t, obj.ty.cls, attr, v)
             return
         if isinstance(obj, Val) and isinstance(obj.ty, TTup) and attr in obj.ty.fields:
+            # by-value record held in a local variable (sidecar: REG.value_record): the variable gets the updated record.
+            # Sound as long as the object is not observed through another alias afterwards (stated by the contract).
+            if obj.ty.name in self.x.reg.value_records and isinstance(node.value, ast.Name):
+                ty = obj.ty
+                idx = ty.fields.index(attr)
+                items = [ty.proj(obj.t, i) for i in range(len(ty.items))]
+                items[idx] = self.coerce(v, ty.items[idx]).t
+                self.assign(node.value, Val(ty, ty.mk(*items)), self._cur_frame, writeback=True)
+                return
             raise EngineError("assignment to a field of a by-value record; declare the class as heap-allocated")
         h = self.x.attr_setter(obj, attr)
         if h is not None:
